@@ -483,6 +483,99 @@ class CRG_reverse_0(LoopInv):
         return [ctx.v_entry.bref(x)]
 
 
+class _CRG_side_atoms(LoopInv):
+    """for atom in self.atoms: product.add_atom(atom, **self._atom_attrs[atom])        (reactant() and product())"""
+    modifies_dict_dom = ("atoms", "nbrs", "attr")
+    modifies_dict_val = ("atoms", "nbrs", "attr")
+    modifies_set = ("iset",)
+    allocates = True
+
+    def inv(self, ctx, done):
+        e = ctx.fr.env["product"]
+        v0, E = ctx.v_entry, ctx.h_entry
+        N = H.heap_of(ctx.interp).snapshot()
+        vN = GM.View(N, e)
+        x, y, r_ = z3.Int("lx"), z3.Int("ly"), z3.Int("lr")
+        k = z3.Const("lkk", H.KeyS)
+        topE, topN = E.top(), N.top()
+        AT, NT = e.fields["_atom_attrs"].ref, e.fields["_neighbors"].ref
+        row_same = lambda arrN, arrE, r: z3.Select(arrN, r) == z3.Select(arrE, r)  # noqa
+        return [
+            ("visited-are-atoms", FA([x], z3.Implies(z3.Select(done, x), z3.Select(ctx.C, x)), patterns=[z3.Select(done, x)])),
+            ("atoms-of-the-new-graph-are-the-visited-ones", FA([x], z3.And(vN.atom(x) == z3.Select(done, x), vN.nkey(x) == z3.Select(done, x)), patterns=[vN.atom(x), vN.nkey(x)])),
+            ("their-attribute-dicts-and-neighbour-sets-are-new", FA([x], z3.Implies(z3.Select(done, x), z3.And(vN.aref(x) >= topE, vN.aref(x) < topN, vN.nref(x) >= topE, vN.nref(x) < topN)),
+                                                                    patterns=[vN.aref(x), vN.nref(x)])),
+            ("attribute-dicts-unshared", FA([x, y], z3.Implies(z3.And(z3.Select(done, x), z3.Select(done, y), x != y), vN.aref(x) != vN.aref(y)), patterns=[z3.MultiPattern(vN.aref(x), vN.aref(y))])),
+            ("neighbour-sets-unshared", FA([x, y], z3.Implies(z3.And(z3.Select(done, x), z3.Select(done, y), x != y), vN.nref(x) != vN.nref(y)), patterns=[z3.MultiPattern(vN.nref(x), vN.nref(y))])),
+            ("attributes-are-the-source's", FA([x, k], z3.Implies(z3.Select(done, x), z3.And(vN.attr_has(x, k) == v0.attr_has(x, k), z3.Implies(v0.attr_has(x, k), vN.attr_val(x, k) == v0.attr_val(x, k)))),
+                                               patterns=[vN.attr_has(x, k), vN.attr_val(x, k)])),
+            ("neighbour-sets-empty", FA([x, y], z3.Implies(z3.Select(done, x), z3.Not(vN.nbr(x, y))), patterns=[vN.nbr(x, y)])),
+            ("only-the-new-graph's-tables-are-written", z3.And(_frame_other_refs(ctx, "atoms", AT), _frame_other_refs(ctx, "nbrs", NT))),
+            ("objects-that-existed-at-loop-entry-untouched",
+             FA([r_], z3.Implies(r_ < topE, z3.And(row_same(N.dom["attr"], E.dom["attr"], r_), row_same(N.val["attr"], E.val["attr"], r_), row_same(N.mem["iset"], E.mem["iset"], r_))))),
+        ]
+
+
+class _CRG_side_bonds(LoopInv):
+    """for bond in self.bonds:
+           r = self._bond_attrs[bond].get("reaction", None)
+           if r is None or r == Change.BROKEN (FORMED for product()):
+               attrs = self._bond_attrs[bond].copy(); attrs.pop("reaction", None); product.add_bond(*bond, **attrs)"""
+    modifies_dict_dom = ("bonds", "attr")
+    modifies_dict_val = ("bonds", "attr")
+    modifies_set = ("iset",)
+    allocates = True
+    keep_label = "BROKEN"
+
+    def inv(self, ctx, done):
+        e = ctx.fr.env["product"]
+        v0, E = ctx.v_entry, ctx.h_entry
+        N = H.heap_of(ctx.interp).snapshot()
+        vE, vN = GM.View(E, e), GM.View(N, e)
+        b, b2 = z3.Const("lb", BondS), z3.Const("lb2", BondS)
+        x, y, r_ = z3.Int("lx"), z3.Int("ly"), z3.Int("lr")
+        k = z3.Const("lkk", H.KeyS)
+        topE, topN = E.top(), N.top()
+        BT = e.fields["_bond_attrs"].ref
+        lab = v0.battr_val(b, H.K_REACTION)
+        on_side = z3.And(v0.bond(b), z3.Or(z3.Not(v0.battr_has(b, H.K_REACTION)), lab == H.ValS.VChg(H.CHG[self.keep_label])))
+        kept = z3.And(z3.Select(done, b), on_side)
+        keptxy = z3.substitute(kept, (b, mkbond(x, y)))
+        row_same = lambda arrN, arrE, r: z3.Select(arrN, r) == z3.Select(arrE, r)  # noqa
+        return [
+            ("visited-are-bonds", FA([b], z3.Implies(z3.Select(done, b), z3.Select(ctx.C, b)), patterns=[z3.Select(done, b)])),
+            ("bonds-of-the-new-graph-are-the-visited-ones-on-this-side", FA([b], vN.bond(b) == kept, patterns=[vN.bond(b)])),
+            ("their-attribute-dicts-are-new", FA([b], z3.Implies(vN.bond(b), z3.And(vN.bref(b) >= topE, vN.bref(b) < topN)), patterns=[vN.bref(b)])),
+            ("attribute-dicts-unshared", FA([b, b2], z3.Implies(z3.And(vN.bond(b), vN.bond(b2), b != b2), vN.bref(b) != vN.bref(b2)), patterns=[z3.MultiPattern(vN.bref(b), vN.bref(b2))])),
+            ("attributes-are-the-source's-without-the-label",
+             FA([b, k], z3.Implies(vN.bond(b), z3.And(vN.battr_has(b, k) == z3.And(v0.battr_has(b, k), k != H.K_REACTION), z3.Implies(v0.battr_has(b, k), vN.battr_val(b, k) == v0.battr_val(b, k)))),
+                patterns=[vN.battr_has(b, k), vN.battr_val(b, k)])),
+            ("neighbour-sets-mirror-the-bonds-added-so-far", FA([x, y], z3.Implies(vE.atom(x), vN.nbr(x, y) == z3.And(x != y, keptxy)), patterns=[vN.nbr(x, y)])),
+            ("only-the-new-graph's-bond-table-is-written", _frame_other_refs(ctx, "bonds", BT)),
+            ("attribute-dicts-that-existed-at-loop-entry-untouched", FA([r_], z3.Implies(r_ < topE, z3.And(row_same(N.dom["attr"], E.dom["attr"], r_), row_same(N.val["attr"], E.val["attr"], r_))))),
+            ("sets-of-the-source-untouched", FA([r_], z3.Implies(r_ < E.A0, row_same(N.mem["iset"], E.mem["iset"], r_)))),
+        ]
+
+    def hints(self, ctx, x):
+        return [ctx.v_entry.bref(x), ctx.v_entry.nref(BondS.lo(x)), ctx.v_entry.nref(BondS.hi(x))]
+
+
+class CRG_reactant_0(_CRG_side_atoms):
+    pass
+
+
+class CRG_reactant_1(_CRG_side_bonds):
+    keep_label = "BROKEN"
+
+
+class CRG_product_0(_CRG_side_atoms):
+    pass
+
+
+class CRG_product_1(_CRG_side_bonds):
+    keep_label = "FORMED"
+
+
 def _role_loop(label):
     class _L(LoopInv):
         __doc__ = f"""for bond in self.bonds: a1, a2 = bond; if self.get_bond_attribute(a1, a2, "reaction") == Change.{label}: acc.add(bond)"""
@@ -506,6 +599,10 @@ def _role_loop(label):
 
 
 LOOPS = {
+    ("graphs/crg.py", "CondensedReactionGraph.reactant", 0): CRG_reactant_0,
+    ("graphs/crg.py", "CondensedReactionGraph.reactant", 1): CRG_reactant_1,
+    ("graphs/crg.py", "CondensedReactionGraph.product", 0): CRG_product_0,
+    ("graphs/crg.py", "CondensedReactionGraph.product", 1): CRG_product_1,
     ("graphs/scrg.py", "StereoCondensedReactionGraph.reverse_reaction", 0): SCRG_reverse_0,
     ("graphs/scrg.py", "StereoCondensedReactionGraph.reverse_reaction", 1): SCRG_reverse_1,
     ("graphs/crg.py", "CondensedReactionGraph.reverse_reaction", 0): CRG_reverse_0,
